@@ -270,8 +270,9 @@ struct MirEmitter {
     if (uses_ext) r += "p_ext:\tproto i64, i64:t, i64:v\n";
     for (int n : extn_sizes) { r += S("p_extn_%d:\tproto i64, i64:n", n); for (int i = 1; i <= n; i++) r += S(", i64:a%d", i); r += "\n"; }
     for (auto &c : icalled) r += "r_" + c + ":\tref " + c + ", 0\n";
-    if (const Json *dj = m.find("data")) for (auto &d : dj->a) r += d.gets("name") + ":\ti64 " + std::to_string((long long) d.geti("val")) + "\n";
+    if (const Json *dj = m.find("data")) for (auto &d : dj->a) { r += d.gets("name") + ":\ti64 " + std::to_string((long long) d.geti("val")) + "\n"; if (d.geti("multi", 0)) r += "\ti32 " + std::to_string((long long) (d.geti("val") & 0xffff) + 1) + "\n\ti64 7\n"; }  // multi: a data section continued by unnamed items
     for (size_t oi : order) r += ftxt[oi];
+    if (m.geti("fwd_after", 0)) for (auto &f : m.at("funcs").a) r += "\tforward " + f.gets("name") + "\n";   // a (redundant) forward declaration after the definition
     r += "\tendmodule\n";
     return r;
   }
